@@ -122,6 +122,52 @@ def snapshot_isolation(chk: Check, rule: str = 'PROV-snapshot-isolation') -> Non
         chk.ob(rule, lp, bool(rets) and bad is None, 'every value load_pickle returns is deserialised by this very call' + ('' if bad is None else
                f' -- {norm(bad)} can hand out an object that was read (and handed out) before'), node=bad, kind='load:deserialised-each-time')
 
+    # the pickle persister: the FILE is the store.  Either every way through load_checkpoint reads it on this call, or -- if something read earlier is kept -- what is
+    # kept under a key is dropped by every operation that changes the file of that key, under the SAME key expression (a cache dropped under (pid) while it is
+    # looked up under (pid, tag) hands out the checkpoint that was overwritten: a second restore from 'latest' re-executes completed steps)
+    from ..decisions import paths_under as _pu, value_on_path as _vop
+    lf = prog.view(pic.vmethods['load_checkpoint'])
+    flf = chk.ctx.facts.analyse(lf)
+    cached = []
+    n_paths = 0
+    try:
+        for path in _pu(flf, {}):
+            if path[-1] is not flf.cfg.exit:
+                continue
+            ri = [i for i, m in enumerate(path) if m.kind == 'return' and m.ast.value is not None]
+            if not ri:
+                continue
+            n_paths += 1
+            v = _vop(path, ri[-1], path[ri[-1]].ast.value, depth=6)
+            if not any(isinstance(c, ast.Call) and last_name(c) in ('load_pickle', 'load', 'loads') for c in ast.walk(v)):
+                subs = [x for x in ast.walk(v) if isinstance(x, ast.Subscript) and norm(x.value).startswith('self.')] + [
+                    x for x in ast.walk(v) if isinstance(x, ast.Call) and isinstance(x.func, ast.Attribute) and x.func.attr == 'get' and norm(x.func.value).startswith('self.')]
+                cached.append(subs[0] if subs else v)
+    except RuntimeError:
+        cached.append(None)
+    ok = n_paths > 0
+    why = 'every way through PicklePersister.load_checkpoint reads the file on this call'
+    if cached and ok:
+        c0 = cached[0]
+        table = norm(c0.value if isinstance(c0, ast.Subscript) else c0.func.value) if isinstance(c0, (ast.Subscript, ast.Call)) else None
+        key = (c0.slice if isinstance(c0, ast.Subscript) else (c0.args[0] if c0.args else None)) if isinstance(c0, (ast.Subscript, ast.Call)) else None
+        ok = table is not None and key is not None
+        why = f'load_checkpoint can hand out what is kept in {table} under {norm(key) if key is not None else "?"}'
+        for mname in ('save_checkpoint', 'delete_checkpoint'):
+            mf = prog.view(pic.vmethods[mname])
+            from ..rules import Resolver as _Rs
+            rs = _Rs(mf)
+            drops = [rs.expand(c.args[0]) for c in calls_in_func(mf, 'pop') if norm(c.func.value) == table and c.args] + [
+                rs.expand(t.slice) for d in ast.walk(mf.node) if isinstance(d, ast.Delete) for t in d.targets if isinstance(t, ast.Subscript) and norm(t.value) == table] + [
+                rs.expand(t.slice) for a_ in ast.walk(mf.node) if isinstance(a_, ast.Assign) for t in a_.targets if isinstance(t, ast.Subscript) and norm(t.value) == table]
+            want = norm(_Rs(lf).expand(key)) if key is not None else ''
+            # the same key expression, the process's pid standing for the pid parameter
+            same = [d for d in drops if norm(d).replace(f'{mf.params[1]}.pid', lf.params[1]) == want or norm(d) == want]
+            if not same:
+                ok = False
+                why += f'; {mname} does not drop (or replace) that entry under the same key (it uses {[norm(d) for d in drops] or "nothing"})'
+    chk.ob(rule, lf, ok, why + ('' if cached else ' (nothing read earlier is kept)'), node=cached[0] if cached and isinstance(cached[0], ast.AST) else None, kind='load:file-is-the-store')
+
 
 
 def run(chk: Check) -> None:
